@@ -166,6 +166,22 @@ def _generate(rng, tier):
             cases.append(Case("stream", [enc(c) for c in chunks],
                               meta={"group": g, "kind": kind, "bad": bad, "k": k, "stream": b, "ents": ents,
                                     "nt": len(chunks) > 1 and any(o not in bounds for o in offs), "offs": offs}))
+    # a caller that keeps writing after a failed write: what a failed write leaves behind (buffer, entries already
+    # pushed) is part of the stream's state, so every later write must still agree with the model
+    for g in range(30 if tier == "quick" else 400):
+        k = rng.choice([2, 3, 4])
+        bad = rng.randrange(k)
+        ents = stream_of(rng, k, bad)
+        b = "".join(t + "\n" for t in ents).encode("utf-8")
+        good = (stream_of(rng, 1, None)[0] + "\n").encode("utf-8")
+        cuts = sorted(rng.sample(range(1, len(b)), min(len(b) - 1, rng.choice([1, 2, 3]))))
+        chunks = [b[i:j] for i, j in zip([0] + cuts, cuts + [len(b)])]
+        tail = rng.choice([[b"x"], [good], [good[:7], good[7:]], [b"\n"], [b"\n\n"], [b"", good], [b"x", b"\n\n", good]])
+        cases.append(Case("stream.cont", [enc(c) for c in chunks + tail], meta={"kind": "cont", "nt": True}))
+        # first write without a separator, second completes a good record and a bad one, then more
+        first = (ents[0] + "\n").encode("utf-8") if bad != 0 else good
+        badrec = b"NOT A RECORD\n\n"
+        cases.append(Case("stream.cont", [enc(c) for c in [first[:-9], first[-9:] + badrec] + tail + [good]], meta={"kind": "cont", "nt": True}))
     # not UTF-8 at all: outside the property, still compared with the model
     for junk in (b"PKGNAME=\xff\n\n", b"\xc3\n\n", b"a=b\n\n\xe9", b"\n\n", b"\n\n\n", b"x"):
         cases.append(Case("stream", [enc(junk)], meta={"kind": "junk", "nt": False}))
